@@ -13,7 +13,7 @@ Definition w_catalog : list op :=
 (* class 3: pages stored behind the dirty tracker's back are not in the power-loss image:
    after the acknowledged INSERT the header page (1,0) of the table is still the one synced at creation *)
 Lemma power_header_stale_refuted_l :
-  exists os i, wf_run init os = true /\ existsb is_api_ckpt os = false /\ in_txn (run init (firstn i os)) = false
+  exists os i, wf_run init os = true /\ in_txn (run init (firstn i os)) = false
     /\ vol (run init (firstn i os)) (1, 0) = Some 4
     /\ r_pages (recover Power (run init (firstn i os))) (1, 0) = Some 1.
 Proof. exists w_catalog, 2%nat. vm_compute. repeat split; auto. Qed.
@@ -54,7 +54,7 @@ Proof. exists w_torn, 4%nat, 4%nat. vm_compute. repeat split; auto. Qed.
    the system table's file; after a power loss the acknowledged INSERT into table 1 is gone
    (its leaf page is back to the empty root synced at creation), while without the collision it survives *)
 Lemma power_id_collision_refuted_l :
-  exists os i, wf_run init os = true /\ existsb is_api_ckpt os = false /\ in_txn (run init (firstn i os)) = false
+  exists os i, wf_run init os = true /\ in_txn (run init (firstn i os)) = false
     /\ vol (run init (firstn i os)) (1, 1) = Some 5
     /\ r_pages (recover_sh [1] Power (run init (firstn i os))) (1, 1) = Some 2
     /\ r_pages (recover Power (run init (firstn i os))) (1, 1) = Some 5.
